@@ -1325,7 +1325,8 @@ class Kinds:
         self.subs: list["Kinds"] = []  # generator helpers of the same module this function iterates
         self.keyviews: dict[str, tuple[str, ast.AST]] = {}  # local list of a mapping's keys (possibly minus the keys without ':')
         self.domlists: dict[str, tuple[str, str]] = {}  # local list of the domains of a key view: name -> (key view, where the key is cut)
-        self.understood_comps: set[int] = set()  # loop -> alternatives of its iterable that are built from a filter
+        self.understood_comps: set[int] = set()
+        self.recviews: dict[str, tuple] = {}  # local list of the records a generator helper yields: name -> (sub, roles, arg role, node)  # loop -> alternatives of its iterable that are built from a filter
         if not fi.params:
             raise Unsupported(f"{fi.qualname} has no parameter")
         self.kinds[fi.params[0]] = root_kind
@@ -1414,6 +1415,31 @@ class Kinds:
         else:
             raise Unsupported(f"{self.fi.qualname}: cannot bind `{short(target, 30)}` to role {kind}")
 
+    def _follow_generator(self, it: ast.expr):
+        """(Kinds of the helper, roles of what it yields, role of its argument) for `helper(mapping)`, a generator of this module."""
+        helper = self.fi.module.functions.get(it.func.id) if isinstance(it, ast.Call) and isinstance(it.func, ast.Name) else None
+        if not (helper is not None and helper.fq != self.fi.fq and helper.is_generator() and len(it.args) == 1 and not it.keywords and len(helper.params) == 1):
+            return None
+        k0 = self.kind_of(it.args[0])
+        if k0 is None:
+            raise Unsupported(f"{self.fi.qualname}: `{short(it, 50)}` - the role of the argument is not known")
+        for sub in self.subs:
+            if sub.fi.fq == helper.fq and sub.kinds.get(helper.params[0]) == k0:
+                break
+        else:
+            sub = Kinds(helper, self.rk, k0)
+            self.subs.append(sub)
+        ys = [y for y in helper.local_nodes() if isinstance(y, ast.Yield)]
+        if not ys or any(isinstance(y, ast.YieldFrom) for y in helper.local_nodes()):
+            raise Unsupported(f"{helper.qualname}: yields not understood")
+        shapes = set()
+        for y in ys:
+            elts = y.value.elts if isinstance(y.value, ast.Tuple) else [y.value]
+            shapes.add(tuple(sub.kind_of(e) if e is not None else None for e in elts))
+        if len(shapes) != 1:
+            raise Unsupported(f"{helper.qualname}: yields values of different roles")
+        return sub, shapes.pop(), k0
+
     def _loop(self, n: ast.For) -> None:
         self.loops.append(n)
         it = n.iter
@@ -1421,30 +1447,19 @@ class Kinds:
             if it.func.id in ORDER_BREAKERS:
                 self.order_breaks.append((n, it.func.id))
             it = it.args[0]
-        helper = self.fi.module.functions.get(it.func.id) if isinstance(it, ast.Call) and isinstance(it.func, ast.Name) else None
-        if helper is not None and helper.fq != self.fi.fq and helper.is_generator() and len(it.args) == 1 and not it.keywords and len(helper.params) == 1:
+        followed = self._follow_generator(it)
+        if followed is None and isinstance(it, ast.Name) and it.id in self.recviews:
+            followed = self.recviews[it.id][:3]  # a local list materialised from the generator helper (possibly re-sorted)
+        if followed is not None:
             # `for a, b, c in _iter_groups(mapping)`: the roles come from what the generator helper yields
-            k0 = self.kind_of(it.args[0])
-            if k0 is None:
-                raise Unsupported(f"{self.fi.qualname}: `{short(n.iter, 50)}` - the role of the argument is not known")
-            sub = Kinds(helper, self.rk, k0)
-            self.subs.append(sub)
-            ys = [y for y in helper.local_nodes() if isinstance(y, ast.Yield)]
-            if not ys or any(isinstance(y, ast.YieldFrom) for y in helper.local_nodes()):
-                raise Unsupported(f"{helper.qualname}: yields not understood")
-            shapes = set()
-            for y in ys:
-                elts = y.value.elts if isinstance(y.value, ast.Tuple) else [y.value]
-                shapes.add(tuple(sub.kind_of(e) if e is not None else None for e in elts))
-            if len(shapes) != 1:
-                raise Unsupported(f"{helper.qualname}: yields values of different roles")
-            shape = shapes.pop()
+            sub, shape, k0 = followed
             targets = n.target.elts if isinstance(n.target, (ast.Tuple, ast.List)) else [n.target]
             if len(targets) != len(shape):
-                raise Unsupported(f"{self.fi.qualname}: loop target `{short(n.target, 40)}` does not fit what {helper.name} yields")
+                raise Unsupported(f"{self.fi.qualname}: loop target `{short(n.target, 40)}` does not fit what {sub.fi.name} yields")
             for tg, kk in zip(targets, shape):
                 self._bind(tg, kk, n)
-            n._c19_kind = f"{sub.loops[0]._c19_kind if sub.loops else k0} (through {helper.name})"  # type: ignore[attr-defined]
+            n._c19_kind = f"{sub.loops[0]._c19_kind if sub.loops else k0} (through {sub.fi.name})"  # type: ignore[attr-defined]
+            n._c19_sub = sub  # type: ignore[attr-defined]
             if getattr(sub, "key_split", None) is not None and getattr(self, "key_split", None) is None:
                 self.key_split = sub.key_split
             return
@@ -1494,10 +1509,22 @@ class Kinds:
             self._bind(dom, "DOMAIN", n)
             self._bind(typ, "OTYPE", n)
             return
+        if isinstance(t, ast.Name) and isinstance(v, ast.Call) and isinstance(v.func, ast.Name) and v.func.id in ("list", "tuple") and len(v.args) == 1 and not v.keywords:
+            followed = self._follow_generator(v.args[0])
+            if followed is not None:  # groups = list(_iter_groups(mapping))
+                self.recviews[t.id] = (*followed, n)
+                return
         if isinstance(v, ast.ListComp) and len(v.generators) == 1 and isinstance(t, ast.Name) and isinstance(v.generators[0].target, ast.Name):
             gen = v.generators[0]
             var = gen.target.id
             it = gen.iter
+            if isinstance(it, ast.Name) and it.id in self.recviews and not gen.ifs and isinstance(v.elt, ast.Subscript) and isinstance(v.elt.value, ast.Name) and v.elt.value.id == var and isinstance(v.elt.slice, ast.Constant) and type(v.elt.slice.value) is int:
+                sub, shape, _k0, _n = self.recviews[it.id]
+                i = v.elt.slice.value
+                if 0 <= i < len(shape) and shape[i] == "DOMAIN":  # [group[0] for group in groups]: the domain of every record
+                    self.understood_comps.add(id(gen))
+                    self.domlists[t.id] = (it.id, (getattr(sub, "key_split", None) or ("first", None))[0])
+                    return
             if isinstance(it, ast.Call) and isinstance(it.func, ast.Attribute) and it.func.attr == "keys" and not it.args:
                 it = it.func.value
             mk = self.kind_of(it)
@@ -1561,7 +1588,7 @@ def _key_order(kd: "Kinds", loop: ast.For):
     base = loop.iter
     if isinstance(base, ast.Call) and isinstance(base.func, ast.Attribute) and base.func.attr in ("items", "keys", "values") and not base.args:
         base = base.func.value
-    if not (isinstance(base, ast.Name) and base.id in kd.keyviews):
+    if not (isinstance(base, ast.Name) and (base.id in kd.keyviews or base.id in kd.recviews)):
         return "flat", None
     name = base.id
     sorts = [c for c in kd.fi.local_nodes() if isinstance(c, ast.Call) and isinstance(c.func, ast.Attribute) and isinstance(c.func.value, ast.Name) and c.func.value.id == name and c.func.attr in ("sort", "reverse")]
@@ -1573,6 +1600,11 @@ def _key_order(kd: "Kinds", loop: ast.For):
     if isinstance(lam, ast.Lambda) and len(lam.args.args) == 1 and isinstance(lam.body, ast.Call) and isinstance(lam.body.func, ast.Attribute) and lam.body.func.attr == "index" and isinstance(lam.body.func.value, ast.Name) and len(lam.body.args) == 1:
         dl = kd.domlists.get(lam.body.func.value.id)
         dom = _domain_of(lam.body.args[0], lam.args.args[0].arg)
+        a0 = lam.body.args[0]
+        if name in kd.recviews and isinstance(a0, ast.Subscript) and isinstance(a0.value, ast.Name) and a0.value.id == lam.args.args[0].arg and isinstance(a0.slice, ast.Constant) and type(a0.slice.value) is int:
+            shape = kd.recviews[name][1]
+            if 0 <= a0.slice.value < len(shape) and shape[a0.slice.value] == "DOMAIN" and dl is not None:
+                dom = dl[1]  # the record's domain field, cut where the helper cuts the key
         if dl is not None and dl[0] == name and dom is not None and dom == dl[1]:
             return ("grouped", sorts[0]) if dom == "first" else ("other", sorts[0])
     return "other", sorts[0]
@@ -1852,11 +1884,16 @@ def r3_pairing(corpus: Corpus, rep: Report, tier: str):
                     rep.violation("C19.R3", k, fx.module.site(loop), f"the loop iterates `{short(loop.iter, 50)}`: `{br[0]}` replaces the mapping's own (inventory) order")
                 else:
                     rep.ok("C19.R3", k, fx.module.site(loop))
-                if rk == "sphinx" and loop._c19_kind == "SINV":
+                if rk == "sphinx" and fx is fi and (loop._c19_kind == "SINV" or loop._c19_kind.startswith("SINV (through")):
                     # the native format nests the types under their domain (first occurrence), the Sphinx format is flat:
                     # the flat keys must be walked grouped by domain or the two representations yield in different orders
                     k = f"{fx.fq}|domain:type keys are walked grouped by domain, in the order of the native nesting"
                     how, node = _key_order(kx, loop)
+                    sub_ = getattr(loop, "_c19_sub", None)
+                    if how == "flat" and sub_ is not None and sub_.loops:
+                        how, node = _key_order(sub_, sub_.loops[0])  # the generator helper may do the grouping itself
+                        if how != "flat":
+                            rep.note(f"C19.R3: {fx.qualname}: the grouping of the domain:type keys is done inside {sub_.fi.qualname}")
                     if how == "grouped":
                         rep.ok("C19.R3", k, fx.module.site(node))
                     elif how == "flat":
@@ -3459,6 +3496,10 @@ def mutants(corpus: Corpus):
     if srt is not None:
         add("c19-sphinx-keys-not-grouped-by-domain", "C19.R3", inv, srt, "pass", "grouped by domain", canary=True)
         add("c19-sphinx-keys-sorted-alphabetically", "C19.R3", inv, srt, f"{unparse(srt.value.func.value)}.sort()", "grouped by domain")
+        lam = srt.value.keywords[0].value if srt.value.keywords and isinstance(srt.value.keywords[0].value, ast.Lambda) else None
+        sub0 = find_node(fs, lambda n: lam is not None and isinstance(n, ast.Subscript) and isinstance(n.slice, ast.Constant) and n.slice.value == 0 and any(x is n for x in ast.walk(lam)))
+        if sub0 is not None:
+            add("c19-sphinx-keys-grouped-by-type", "C19.R3", inv, sub0.slice, "1", "grouped by domain")
         dsp = find_node(fs, lambda n: isinstance(n, ast.Call) and isinstance(n.func, ast.Attribute) and n.func.attr == "split" and isinstance(parent(n), ast.Subscript) and isinstance(parent(parent(n)), ast.ListComp))
         add("c19-sphinx-domain-list-cut-at-last-colon", "C19.R3", inv, dsp.func if dsp is not None else None, f"{unparse(dsp.func.value)}.rsplit" if dsp is not None else "", "grouped by domain")
     else:
